@@ -163,7 +163,12 @@ func parseContractText(text, path, pkgPath string) ([]*FuncContract, error) {
 			if len(parts) < 3 {
 				return nil, fmt.Errorf("%s:%d: malformed loop clause", path, n+1)
 			}
-			fmt.Sscanf(parts[0], "%d", &loop)
+			if strings.HasPrefix(parts[0], "y") { // range-over-func loops are numbered separately: y0, y1, ...
+				fmt.Sscanf(parts[0][1:], "%d", &loop)
+				loop += 1000
+			} else {
+				fmt.Sscanf(parts[0], "%d", &loop)
+			}
 			if parts[1] != "invariant" {
 				last = nil
 				continue // decreases: termination is not verified
